@@ -63,8 +63,46 @@ def gen_case(seed, i):
         pipe = {k: v for k, v in pipe2.items()}
         if "refinement" in pipe and list(pipe).count("refinement") > 1:
             pass
+    if i % 3 == 1:
+        # a bilateral filter whose window int(3 sigma + 1) is clamped by the image size: sigma 6.0 and its sibling 4.0 give the
+        # same window width (seed C18-5: a class-level cache of the spatial kernel keyed on the width)
+        pipe = {k: v for k, v in pipe.items() if not k.startswith("filter")}
+        tail = {k: pipe.pop(k) for k in list(pipe) if k.startswith("validation")}
+        pipe["filter"] = {"filter_method": "bilateral", "sigma_color": 2.0, "sigma_space": 6.0}
+        pipe.update(tail)
     other = pl.gen_pipeline(rng, validation=rng.random() < 0.5)
     return left, right, pipe, other
+
+
+# a sibling of a pipeline: same steps, same classes, same array shapes, every numeric parameter moved to another legal value
+# (a cache shared by step objects and keyed on a shape or a width instead of the parameter itself is fed by the sibling)
+SIBLING = {
+    "sigma_space": lambda v: 4.0 if v >= 5.0 else (6.3 if v == 6.0 else v + 0.25),
+    "sigma_color": lambda v: v * 1.5,
+    "cbca_intensity": lambda v: v + 5.0,
+    "cbca_distance": lambda v: v + 1,
+    "cross_checking_threshold": lambda v: 0.0 if v else 1.0,
+    "eta_max": lambda v: 0.5,
+    "eta_step": lambda v: 0.02,
+    "possibility_threshold": lambda v: 0.8,
+    "quantile_regularization": lambda v: 0.9,
+    "vertical_depth": lambda v: v + 1,
+    "filter_size": lambda v: 5 if v == 3 else 3,
+    "invalid_disparity": lambda v: -5 if v == -9999 else -9999,
+}
+
+
+def sibling(pipe):
+    out = copy.deepcopy(pipe)
+    for step in out.values():
+        for k in list(step):
+            if k in SIBLING and isinstance(step[k], (int, float)) and not isinstance(step[k], bool):
+                step[k] = SIBLING[k](step[k])
+        if step.get("confidence_method") == "ambiguity":
+            step.setdefault("eta_max", 0.5)
+        if step.get("filter_method") == "bilateral":
+            step.setdefault("sigma_color", 3.0)
+    return out
 
 
 def config_table():
@@ -196,6 +234,13 @@ def main():
         rec = {"case": i, "pipeline": pipe}
         try:
             fp_l, fp_r = ds_fingerprint(left), ds_fingerprint(right)
+            if job.get("sibling_first"):
+                # in this process every pipeline is preceded by its sibling on another machine object (deep copies of the pair)
+                try:
+                    pl.run_pipeline(left.copy(deep=True), right.copy(deep=True), sibling(pipe))
+                    rec["sibling_ran"] = True
+                except Exception as exc:  # pylint: disable=broad-except
+                    rec["sibling_ran"] = f"{type(exc).__name__}: {str(exc)[:120]}"
             out_l, out_r, m = pl.run_pipeline(left, right, pipe)
             h1 = products_hash(out_l, out_r)
             rec["hash_all"] = h1
